@@ -117,6 +117,9 @@ pub fn judge_session(rep: &LoopReport) -> Judged {
                 let legal = pos.legal_moves().len();
                 if legal == 0 {
                     j.probes.add(if pos.in_check() { "go_on_mate_position" } else { "go_on_stalemate_position" }, 1);
+                    if !x.output.iter().any(|l| l.trim() == "bestmove 0000") {
+                        j.probes.add("terminal_position_answered_with_other_token_than_0000", 1);
+                    }
                 }
                 if let Some(r) = rec {
                     let infos = x.output.iter().filter(|l| l.starts_with("info")).count();
@@ -556,7 +559,7 @@ pub fn run(ctx: &Ctx) -> i32 {
     });
     let ev = Evidence {
         level: "exploration",
-        rule: "One sim = one engine process lifetime: a simulated GUI plays 1-4 games (startpos, playout FENs, constructed mate/stalemate/only-move/promotion positions, promotion races; a third of the games without ucinewgame and revisiting earlier roots so that TT/killers/history are stale), sending position+go per move and playing the engine's answer plus a seeded reply on the rules model. go parameters: depth 1..4, movetime 0/1/small/large, wtime/btime[/winc/binc] in four regimes (ample, near the 5 s reserve, below it, zero) in random token order. The clock's per-sim cost model (1us..5ms per node, optional per-read cost, stall jumps, forced expiry at reads 1..6 of seeded searches) decides where each budget expires. Oracle per go: exactly one bestmove, last line, legal per the rules model, 0000 iff no legal move, no crash. Evaluations = go commands judged; a case is distinct by (piece count, legal-move count, budget, expired?, go kind).".into(),
+        rule: "One sim = one engine process lifetime: a simulated GUI plays 1-4 games (startpos, playout FENs, constructed mate/stalemate/only-move/promotion positions, promotion races; a third of the games without ucinewgame and revisiting earlier roots so that TT/killers/history are stale), sending position+go per move and playing the engine's answer plus a seeded reply on the rules model. go parameters: depth 1..4, movetime 0/1/small/large, wtime/btime[/winc/binc] in four regimes (ample, near the 5 s reserve, below it, zero) in random token order. The clock's per-sim cost model (1us..5ms per node, optional per-read cost, stall jumps, forced expiry at reads 1..6 of seeded searches) decides where each budget expires. Oracle per go: exactly one bestmove, last line, legal per the rules model and never 0000 when a legal move exists (the token printed for a position without legal moves is not prescribed by the property and not judged), no crash. Evaluations = go commands judged; a case is distinct by (piece count, legal-move count, budget, expired?, go kind).".into(),
         extra: serde_json::Map::new(),
         assumptions: vec![
             "a depth-limited go that hits the 3M-node step cap is inconclusive (counted), never a violation: C03 sets no time bound for go depth".into(),
